@@ -40,3 +40,20 @@ prop("C13",
      trusted_base=["tools/goextract: publisherCount literal and its for-loop in NewMemProvider"],
      assumptions=["a worker's hand-over to one subscriber (subscriber.Publish -> queue Add under the queue mutex) is atomic", "the inbound Go channel is FIFO"],
 )
+
+prop("C04",
+     coq=["model/Inbound.v", "proofs/InboundProofs.v", "chk/C04chk.v", "props/C04.v", "refute/C04.v"],
+     n={"quick": 500, "thorough": 10000, "search": 2000},
+     shrink_fields=["evs"],
+     rule="sequences of 3-16 client packets over PUBLISH(qos 0/1/2, id, dup, authorised or not) and PUBREL(id) with ids from a 4-element pool "
+          "(20%: 12-element pool; 3% id 0), server Receive Maximum in {1,2,3,10}, protocol v3.1.1 / v5, through clients.Manager; after every packet a "
+          "PINGREQ barrier on the publisher and QoS0+QoS1 sentinels to a '#' watcher attribute responses and forwards to that packet. "
+          "non-trivial = contains a repeated QoS 2 id or a PUBREL; distinct by case JSON.",
+     level_text="Theorems (coq/props/C04.v) over the executable model of onPublish/onAck(PUBREL): for every packet sequence, protocol version and Receive Maximum: "
+                "the invariant quota + unreleased = RM with unique ids; QoS 1 -> exactly [PUBACK id; forward]; QoS 2 -> exactly one PUBREC id and no forward at that step; "
+                "PUBREL -> forward + PUBCOMP iff the id is stored, else PUBCOMP 'not found' with no effect; stores = releases + still stored (exactly once); id 0 terminates; "
+                "termination for quota iff RM QoS 2 messages are unreleased; a duplicate QoS 2 PUBLISH changes nothing. Tied to connection/connection.go by per-packet differential runs.",
+     level_note="Trusted: Coq kernel + vm_compute; hand translation of onPublish/onAck; the vlapi codec used by both broker and harness client; ACL decisions enter as a per-packet boolean.",
+     trusted_base=["vlapi/mqttp codec (shared by broker and harness client)"],
+     assumptions=["topic alias / retain-not-supported branches of onPublish are exercised by C14 / not modelled here", "ACL verdict is an oracle (boolean per packet)"],
+)
